@@ -10,6 +10,9 @@ CHECKS = {
  "C09": ("deblock", "exhaustive enumeration of the kernel input domain (2^32 patterns x 12 strengths x vector/scalar slot x both passes) plus bounded-exhaustive shape sweep against a scalar Annex J model",
          "The four-sample kernel is decided over its whole finite domain (thorough: all 2^32 x 12 in a vector lane and in the scalar remainder of both passes; quick: all 2^32 for one strength + a 32x32 (A,B) lattice x all (C,D) elsewhere) through the public deblock() on images that isolate one pass; whole-image behaviour (edge positions, pass order, untouched samples, incomplete edges) is compared with an edge-by-edge model for every width x height in a dense range x 12 strengths x 6 contents.",
          "Trusts the i32 transcription of the Annex J formulas and Table J.2; images larger than the shape bound are represented by their residues mod 8.", "3.9"),
+ "C14": ("bitreader", "explicit-state breadth-first search to fixpoint over the real H263Reader (state = bytes pulled, buffer length, bit offset) for every short source, each transition compared with a bit-vector model; plus exhaustive one-step value sweep",
+         "For every source of up to 4 (thorough 5) bytes over a byte alphabet chosen for start codes/stuffing/mixed bits, delivered whole or split, the complete reachable state graph of the reader under ~670 operations per state (peeks, reads, signed reads, skips, start-code search, commits, VLC/UMV reads, successful/failed/nested transactions, unions, look-aheads, source growth) is explored; every returned value/error is compared with the model and a drain probe at every new state checks that each remaining bit is delivered exactly once in order. All 65536 two-byte sources x offsets x widths 0..33 x types cover data values.",
+         "State key read through the cfg-gated hook (destructures the struct, so it is the reader's whole state); operation alphabet and source alphabet are bounds; commit inside a failing transaction and zero-width signed reads are outside the documented contract and not generated.", "3.14"),
  "C16": ("deblock", "bounded-exhaustive shape sweep (all widths x heights x strengths up to a bound) + literal table comparison",
          "Every width 1..64 x height 0..64 (thorough 128) x strength 1..12 x 2 contents is run under catch_unwind with overflow checks: no panic, length preserved, equal to the model (which has no edge when fewer than 10 rows/columns). The 31 table entries are compared with the literal Table J.2.",
          "Sizes beyond the bound are not enumerated; the loop bounds depend on size only through comparisons against small constants, all of which lie inside the bound.", "3.16"),
